@@ -134,38 +134,50 @@ def dep_list(node):
     return list(deps)
 
 
-def build(nodes):
-    dsk = {}
-    for j, (kind, deps, leaf) in enumerate(nodes):
-        k = KEYS[j]
-        dk = [KEYS[i] for i in deps]
-        if kind == "t":
-            dsk[k] = (FUNCS[j],) + tuple(dk)
-        elif kind == "d":
-            dsk[k] = leaf
-        elif kind == "a":
-            dsk[k] = dk[0]
-        elif kind == "l":
-            dsk[k] = (FUNCS[j], list(dk))
-        elif kind == "u":
-            dsk[k] = (FUNCS[j], dk[0]) + tuple(dk)
-        elif kind == "n":
-            dsk[k] = (FUNCS[j], (G, dk[0])) + tuple(dk[1:])
-        elif kind == "T":
-            dsk[k] = Task(k, FUNCS[j], *[TaskRef(d) for d in dk])
-        elif kind == "D":
-            dsk[k] = DataNode(k, leaf)
-        elif kind == "A":
-            dsk[k] = Alias(k, dk[0])
-        elif kind == "L":
-            dsk[k] = Task(k, FUNCS[j], List(*[TaskRef(d) for d in dk]))
-        elif kind == "U":
-            dsk[k] = Task(k, FUNCS[j], TaskRef(dk[0]), *[TaskRef(d) for d in dk])
-        elif kind == "N":
-            dsk[k] = Task(k, FUNCS[j], Task(None, G, TaskRef(dk[0])), *[TaskRef(d) for d in dk[1:]])
-        else:
-            raise AssertionError(kind)
-    return dsk
+def mk_node(j, node, key=None):
+    """the graph value of node j (written under `key`, default KEYS[j])"""
+    kind, deps, leaf = node
+    k = KEYS[j] if key is None else key
+    dk = [KEYS[i] for i in deps]
+    if kind == "t":
+        return (FUNCS[j],) + tuple(dk)
+    if kind == "d":
+        return leaf
+    if kind == "a":
+        return dk[0]
+    if kind == "l":
+        return (FUNCS[j], list(dk))
+    if kind == "u":
+        return (FUNCS[j], dk[0]) + tuple(dk)
+    if kind == "n":
+        return (FUNCS[j], (G, dk[0])) + tuple(dk[1:])
+    if kind == "T":
+        return Task(k, FUNCS[j], *[TaskRef(d) for d in dk])
+    if kind == "D":
+        return DataNode(k, leaf)
+    if kind == "A":
+        return Alias(k, dk[0])
+    if kind == "L":
+        return Task(k, FUNCS[j], List(*[TaskRef(d) for d in dk]))
+    if kind == "U":
+        return Task(k, FUNCS[j], TaskRef(dk[0]), *[TaskRef(d) for d in dk])
+    if kind == "N":
+        return Task(k, FUNCS[j], Task(None, G, TaskRef(dk[0])), *[TaskRef(d) for d in dk[1:]])
+    raise AssertionError(kind)
+
+
+def build(nodes, rev=False):
+    """rev: insert the keys into the dict dependents-first instead of dependencies-first"""
+    order = range(len(nodes))
+    return {KEYS[j]: mk_node(j, nodes[j]) for j in (reversed(order) if rev else order)}
+
+
+def dependents_of(nodes):
+    out = {j: set() for j in range(len(nodes))}
+    for j, nd in enumerate(nodes):
+        for i in nd[1]:
+            out[i].add(j)
+    return out
 
 
 def ref_values(nodes):
@@ -368,24 +380,25 @@ def mk_inline_functions(N, styles, fixed=None, opts=((False, None), (True, "set"
     return _with_e2e(f"inline_functions[{_tag(N, styles, fixed)}]", setup, run, lambda *a: (call(*a), a[0], a[1]))
 
 
-FUSE_OPTS_Q = ((0, None), (1, "list"), (2, None))                   # (index into RENAME, dependencies mode)
-FUSE_OPTS_T = tuple((r, d) for r in range(3) for d in (None, "list"))
+# (index into RENAME, dependencies mode, dict insertion order reversed)
+FUSE_OPTS_Q = ((0, None, False), (1, "list", True), (2, None, True), (2, "list", False))
+FUSE_OPTS_T = tuple((r, d, o) for r in range(3) for d in (None, "list") for o in (False, True))
 
 
 def mk_fuse_linear(N, styles, fixed=None, opts=FUSE_OPTS_Q, req="all"):
     def setup(e):
         nodes = gen(e, N, LEG, 1, styles, fixed)
         rq = _req_sets(e, N, req, True)
-        rn, dm = e.pick("opts", opts)
-        return nodes, rq, rn, dm
+        rn, dm, rev = e.pick("opts", opts)
+        return nodes, rq, rn, dm, rev
 
-    def call(nodes, rq, rn, dm):
-        dsk = build(nodes)
+    def call(nodes, rq, rn, dm, rev):
+        dsk = build(nodes, rev)
         keys = [KEYS[j] for j in rq] if rq else None
         return O.fuse_linear(dsk, keys=keys, dependencies=given_deps(nodes, dm), rename_keys=RENAME[rn])
 
-    def run(e, nodes, rq, rn, dm):
-        new, deps = call(nodes, rq, rn, dm)
+    def run(e, nodes, rq, rn, dm, rev):
+        new, deps = call(nodes, rq, rn, dm, rev)
         obs = check_values(e, new, nodes, rq, "fuse_linear")
         return obs, check_depmap(e, new, deps, "fuse_linear")
 
@@ -400,21 +413,21 @@ def mk_fuse(N, styles, pmax, fixed=None, opts=FUSE_OPTS_Q, req="all"):
     def setup(e):
         nodes = gen(e, N, LEG, 1, styles, fixed)
         rq = _req_sets(e, N, req, True)
-        rn, dm = e.pick("opts", opts)
+        rn, dm, rev = e.pick("opts", opts)
         aw = e.int("ave_width", 0, pmax)
         mw = e.int("max_width", 0, pmax)
         mh = e.int("max_height", 0, pmax)
         md = e.int("max_depth_new_edges", 0, pmax)
-        return nodes, rq, rn, dm, aw, mw, mh, md
+        return nodes, rq, rn, dm, rev, aw, mw, mh, md
 
-    def call(nodes, rq, rn, dm, aw, mw, mh, md):
-        dsk = build(nodes)
+    def call(nodes, rq, rn, dm, rev, aw, mw, mh, md):
+        dsk = build(nodes, rev)
         keys = [KEYS[j] for j in rq] if rq else None
         return O.fuse(dsk, keys=keys, dependencies=given_deps(nodes, dm), ave_width=aw, max_width=mw, max_height=mh,
                       max_depth_new_edges=md, rename_keys=RENAME[rn])
 
-    def run(e, nodes, rq, rn, dm, aw, mw, mh, md):
-        new, deps = call(nodes, rq, rn, dm, aw, mw, mh, md)
+    def run(e, nodes, rq, rn, dm, rev, aw, mw, mh, md):
+        new, deps = call(nodes, rq, rn, dm, rev, aw, mw, mh, md)
         obs = check_values(e, new, nodes, rq, "fuse")
         return obs, check_depmap(e, new, deps, "fuse")
 
@@ -429,13 +442,13 @@ def mk_fuse(N, styles, pmax, fixed=None, opts=FUSE_OPTS_Q, req="all"):
 def mk_fuse_linear_task_spec(N, styles, fixed=None, req="all"):
     def setup(e):
         nodes = gen(e, N, SPEC, None, styles, fixed)
-        return nodes, _req_sets(e, N, req, True)
+        return nodes, _req_sets(e, N, req, True), e.flag("dict_reversed")
 
-    def call(nodes, rq):
-        return TS.fuse_linear_task_spec(build(nodes), [KEYS[j] for j in rq])
+    def call(nodes, rq, rev):
+        return TS.fuse_linear_task_spec(build(nodes, rev), [KEYS[j] for j in rq])
 
-    def run(e, nodes, rq):
-        new = call(nodes, rq)
+    def run(e, nodes, rq, rev):
+        new = call(nodes, rq, rev)
         return check_values(e, new, nodes, rq, "fuse_linear_task_spec")
 
     return _with_e2e(f"fuse_linear_task_spec[{_tag(N, styles, fixed)}]", setup, run, lambda *a: (call(*a), a[0], a[1]))
@@ -447,10 +460,7 @@ def mk_resolve_aliases(N, styles, fixed=None, req="all"):
         return nodes, _req_sets(e, N, req, False)
 
     def call(nodes, rq):
-        dependents = {KEYS[j]: set() for j in range(N)}
-        for j, nd in enumerate(nodes):
-            for i in nd[1]:
-                dependents[KEYS[i]].add(KEYS[j])
+        dependents = {KEYS[j]: {KEYS[i] for i in v} for j, v in dependents_of(nodes).items()}
         return TS.resolve_aliases(build(nodes), {KEYS[j] for j in rq}, dependents)
 
     def run(e, nodes, rq):
@@ -470,6 +480,7 @@ def mk_node_fuse(N, styles, fixed=None):
         return nodes, sel, key, rev
 
     def call(nodes, sel, key, rev):
+        """-> (new graph or None if rejected, outputs of the selection, indices of the keys still in the new graph)"""
         dsk = build(nodes)
         tasks = [dsk[KEYS[j]] for j in (reversed(sel) if rev else sel)]
         # outputs of the selection: selected nodes no selected node depends on
@@ -479,29 +490,35 @@ def mk_node_fuse(N, styles, fixed=None):
             try:
                 fused = GraphNode.fuse(*tasks, key=key)
             except ValueError:
-                return None, outs
-            return fused, outs
+                return None, outs, []
+            return fused, outs, []
         fused = GraphNode.fuse(*tasks, key=key)
         new = dict(dsk)
+        out = outs[0]
         if key is None:
-            new[KEYS[outs[0]]] = fused
+            new[KEYS[out]] = fused
         else:
             new[key] = fused
-            new[KEYS[outs[0]]] = Alias(KEYS[outs[0]], key)
-        return new, outs
+            new[KEYS[out]] = Alias(KEYS[out], key)
+        # "the internal tasks are no longer accessible from the outside": inner nodes nobody outside the selection refers to are dropped
+        dependents = dependents_of(nodes)
+        for j in sel:
+            if j != out and dependents[j] <= set(sel):
+                del new[KEYS[j]]
+        return new, outs, [j for j in range(len(nodes)) if KEYS[j] in new]
 
     def run(e, nodes, sel, key, rev):
-        new, outs = call(nodes, sel, key, rev)
+        new, outs, keep = call(nodes, sel, key, rev)
         if len(outs) > 1:
             e.check(new is None, f"GraphNode.fuse accepted a selection with {len(outs)} outputs")
             return "rejected"
-        return check_values(e, new, nodes, list(range(N)), "GraphNode.fuse")
+        return check_values(e, new, nodes, keep, "GraphNode.fuse")
 
     def native(nodes, sel, key, rev):
-        new, outs = call(nodes, sel, key, rev)
+        new, outs, keep = call(nodes, sel, key, rev)
         if len(outs) > 1:
             return {}, nodes, []
-        return new, nodes, list(range(N))
+        return new, nodes, keep
 
     return _with_e2e(f"node_fuse[{_tag(N, styles, fixed)}]", setup, run, native)
 
@@ -519,8 +536,12 @@ def mk_substitute(N, styles, fixed=None):
         return nodes, j, modes, key
 
     def call(nodes, j, modes, key):
+        """node j is rewritten with substitute: each dependency d is left alone, mapped to itself, replaced by d's GraphNode, or
+        renamed to the fresh key z<d> (which holds d's node in the new graph).  A replaced / renamed d that nobody else refers to
+        is dropped from the new graph, so a substitution that is not carried out leaves a dangling reference."""
         dsk = build(nodes)
         new = dict(dsk)
+        dependents = dependents_of(nodes)
         subs = {"unrelated": "other"}
         for d, m in modes.items():
             if m == "identity":
@@ -530,21 +551,27 @@ def mk_substitute(N, styles, fixed=None):
             elif m == "rename":
                 z = f"z{d}"
                 subs[KEYS[d]] = z
-                new[z] = Alias(z, KEYS[d])
+                new[z] = mk_node(d, nodes[d], key=z)
+            if m in ("inline", "rename") and dependents[d] == {j}:
+                del new[KEYS[d]]
         res = dsk[KEYS[j]].substitute(subs, key=key)
         if key is None:
             new[KEYS[j]] = res
         else:
             new[key] = res
             new[KEYS[j]] = Alias(KEYS[j], key)
-        return new, res
+        return new, res, [i for i in range(len(nodes)) if KEYS[i] in new]
 
     def run(e, nodes, j, modes, key):
-        new, res = call(nodes, j, modes, key)
+        new, res, keep = call(nodes, j, modes, key)
         e.check(isinstance(res, GraphNode), f"substitute returned {type(res).__name__}")
-        return check_values(e, new, nodes, list(range(N)), "substitute")
+        return check_values(e, new, nodes, keep, "substitute")
 
-    return _with_e2e(f"substitute[{_tag(N, styles, fixed)}]", setup, run, lambda *a: (call(*a)[0], a[0], list(range(N))))
+    def native(*a):
+        new, res, keep = call(*a)
+        return new, a[0], keep
+
+    return _with_e2e(f"substitute[{_tag(N, styles, fixed)}]", setup, run, native)
 
 
 # ---------------------------------------------------------------------------------------------------------------
@@ -559,24 +586,30 @@ def obligations(tier):
         obs.append(mk_inline_functions(3, "tn"))
         obs.append(mk_fuse_linear(3, "tu"))
         obs.append(mk_fuse(3, "tu", 4))
-        obs.append(mk_fuse(4, "t", 4, fixed={0: "d", 1: "t", 2: "t", 3: "t"}, opts=((0, None),), req="small"))
+        obs.append(mk_fuse(4, "t", 4, fixed={0: "d", 1: "t", 2: "t", 3: "t"}, opts=((0, None, False),), req="small"))
         obs.append(mk_fuse_linear_task_spec(3, "TLN"))
         obs.append(mk_resolve_aliases(3, "T"))
         obs.append(mk_node_fuse(3, "TN"))
         obs.append(mk_substitute(3, "TLN"))
     else:
-        obs.append(mk_cull(4, "tln"))
-        obs.append(mk_cull(5, "t"))
-        obs.append(mk_inline(4, "tln", sinks=True))
-        obs.append(mk_inline_functions(4, "tln", opts=((False, None), (True, None), (False, "set"), (True, "set"))))
-        obs.append(mk_fuse_linear(4, "tlun", opts=FUSE_OPTS_T))
-        obs.append(mk_fuse_linear(5, "t"))
-        obs.append(mk_fuse(4, "tlun", 5, opts=FUSE_OPTS_T))
-        obs.append(mk_fuse(5, "t", 5, opts=((0, None), (2, "list")), req="small"))
-        obs.append(mk_fuse_linear_task_spec(4, "TLN"))
-        obs.append(mk_fuse_linear_task_spec(5, "T"))
-        obs.append(mk_resolve_aliases(4, "TLN"))
-        obs.append(mk_resolve_aliases(5, "T"))
-        obs.append(mk_node_fuse(4, "TLN"))
-        obs.append(mk_substitute(4, "TLN"))
+        D4 = {0: "d", 1: "t", 2: "t", 3: "t", 4: "t"}
+        obs.append(mk_cull(4, "t"))
+        obs.append(mk_cull(3, "ln"))
+        obs.append(mk_inline(3, "tln", sinks=True))
+        obs.append(mk_inline(4, "tl"))
+        obs.append(mk_inline_functions(3, "tln", opts=((False, None), (True, None), (False, "set"), (True, "set"))))
+        obs.append(mk_inline_functions(4, "tn", req="small"))
+        obs.append(mk_fuse_linear(3, "tlun", opts=FUSE_OPTS_T))
+        obs.append(mk_fuse_linear(4, "tu", req="small"))
+        obs.append(mk_fuse_linear(5, "t", fixed=D4, opts=((0, None, False), (2, "list", True)), req="small"))
+        obs.append(mk_fuse(3, "tlun", 5, opts=FUSE_OPTS_T))
+        obs.append(mk_fuse(4, "t", 5, opts=FUSE_OPTS_Q[:3], req="small"))
+        obs.append(mk_fuse(5, "t", 5, fixed=D4, opts=((0, None, False),), req="small"))
+        obs.append(mk_fuse_linear_task_spec(4, "TL"))
+        obs.append(mk_fuse_linear_task_spec(5, "T", fixed={0: "D", 1: "T", 2: "T", 3: "T", 4: "T"}, req="small"))
+        obs.append(mk_resolve_aliases(4, "TL"))
+        obs.append(mk_node_fuse(3, "TLN"))
+        obs.append(mk_node_fuse(4, "T"))
+        obs.append(mk_substitute(3, "TLN"))
+        obs.append(mk_substitute(4, "TN"))
     return obs
